@@ -11,7 +11,7 @@ T  TraceReadSession: each call's result vs the specification, SHA-256 of the arc
 import json
 import os
 
-from .. import tlc
+from .. import tlc, lifecycle
 from ..common import rng, scratch, MachineryError
 from . import _read
 from .C15 import validate
@@ -91,6 +91,16 @@ def run(tier, rep, ev):
                       "wd": os.path.join(base, f"r{i}")})
     ev.sample({"tlc_sequence": behs[len(behs) // 2]["calls"]})
     _read.run_and_validate("C12", cases, rep, ev, validate)
+    # ---- the object around the calls: write-side calls, calls after close(), several closes (Lifecycle.tla)
+    rl = tlc.run("Lifecycle", "Lifecycle.cfg", workers=4)
+    ev.add_tlc(rl, "Lifecycle(calls<=5)")
+    if not rl.ok:
+        rep.note_drift(f"Lifecycle model violates {rl.violated}")
+    rlu = tlc.run("Lifecycle", "Lifecycle_unguarded.cfg", workers=4)
+    ev.cov["negative_control_lifecycle"] = {"cfg": "Lifecycle_unguarded.cfg", "violated": rlu.violated or "NOTHING"}
+    if rlu.ok:
+        raise MachineryError("negative control failed: unguarded write calls on a reader satisfy ReadNeverWrites")
+    lifecycle.run("C12", ("r",), tier, R, rep, ev, validate)
     ev.cov["exhaustive"] = True
     ev.cov["rule"] = ("all call sequences of length <= %d allowed by the quantifier over 2 model archives (TLC), variants plain/encrypted x "
                       "path/stream x ending by seed (quick) or all (thorough); random 5-6 call sequences on random shapes; "
